@@ -143,6 +143,60 @@ def seeded_variants():
     return res
 
 
+RENAME_TARGETS = [
+    ("mdtraj/geometry/src/neighbors.cpp", "_compute_neighbors", ["C10", "C09", "C05"]),
+    ("mdtraj/geometry/src/neighborlist.cpp", "getNeighbors", ["C10", "C09", "C08"]),
+    ("mdtraj/geometry/src/neighborlist.cpp", "_compute_neighborlist", ["C10", "C09", "C08"]),
+    ("mdtraj/geometry/src/sasa.cpp", "asa_frame", ["C13", "C08", "C09"]),
+    ("mdtraj/geometry/src/sasa.cpp", "generate_sphere_points", ["C13"]),
+    ("mdtraj/geometry/src/sasa.cpp", "sasa", ["C13", "C08"]),
+    ("mdtraj/geometry/src/dssp.cpp", "calculate_beta_sheets", ["C15"]),
+    ("mdtraj/geometry/src/dssp.cpp", "calculate_bends", ["C15", "C09", "C14"]),
+    ("mdtraj/geometry/src/geometry.cpp", "kabsch_sander", ["C14", "C08", "C15", "C09"]),
+    ("mdtraj/geometry/src/geometry.cpp", "ks_assign_hydrogens", ["C14", "C08", "C15", "C09"]),
+    ("mdtraj/geometry/src/geometry.cpp", "ks_donor_acceptor", ["C14", "C09"]),
+    ("mdtraj/geometry/src/geometry.cpp", "find_closest_contact", ["C09", "C05"]),
+    ("mdtraj/geometry/src/geometry.cpp", "dist_mic_triclinic", ["C05", "C09", "C08"]),
+    ("mdtraj/geometry/src/dridkernels.cpp", "drid_moments", ["C16", "C09"]),
+    ("mdtraj/geometry/src/moments.cpp", "moments_push", ["C16"]),
+    ("mdtraj/rmsd/src/theobald_rmsd.cpp", "msdFromMandG", ["C06"]),
+    ("mdtraj/rmsd/src/theobald_rmsd.cpp", "DirectSolve", ["C06"]),
+]
+
+
+def rename_variants(repo):
+    """Twins made on the fly: every local variable of a kernel is renamed (x -> x_rn). Behaviour is unchanged, every check must stay silent."""
+    import re
+    from . import cfront as C
+    res = []
+    cf = C.CFront(repo)
+    for rel, fname, props in RENAME_TARGETS:
+        try:
+            fn = cf.function(rel, fname)
+        except Exception:
+            continue
+        rng = fn.get("range", {})
+        f = rng.get("begin", {}).get("file") or rng.get("begin", {}).get("expansionLoc", {}).get("file")
+        if f and os.path.basename(f) != os.path.basename(rel):
+            continue        # defined in an included header
+        b, e = C.line(fn), rng.get("end", {}).get("line")
+        path = os.path.join(repo, rel)
+        if not (b and e and os.path.exists(path)):
+            continue
+        params_ = {p.get("name") for p in C.fparams(fn)}
+        locs = {n for n, _, _ in C.local_decls(fn) if n not in params_}
+        lines = open(path, encoding="utf-8").read().split("\n")
+        seg = "\n".join(lines[b - 1:e])
+        new = seg
+        for nm in sorted(locs, key=len, reverse=True):
+            new = re.sub(r"(?<![\w.>])%s\b" % re.escape(nm), nm + "_rn", new)
+        if new == seg:
+            continue
+        for p_ in props:
+            res.append(dict(prop=p_, name="%s on renamed locals of %s" % (p_, fname), file=rel, old=seg, new=new, expect=None, where=None, count=1))
+    return res
+
+
 def claimed_properties():
     import json
     try:
@@ -158,6 +212,8 @@ def run_for(prop, jobs=None, repo=None):
     vs = [v for v in mutants.VARIANTS + seeded_variants() if prop in ("ALL", v["prop"])]
     # a check must also stay silent on the behaviour-preserving rewrites written for the *other* properties
     twins = [v for v in mutants.VARIANTS if v.get("expect") is None]
+    claimed = set(claimed_properties())
+    vs += [v for v in rename_variants(repo) if prop in ("ALL", v["prop"]) and (v["prop"] in claimed or not claimed)]
     props = claimed_properties() if prop == "ALL" else [prop]
     for q in props:
         for v in twins:
